@@ -125,7 +125,12 @@ def writers_agree(run, ctx):
         c = H.canon(fn["body"])
         n += 1
         delegates = name.endswith("::expansion") and re.search(r"self\.append_expansion\((\w+),template,captures\)", c) is not None
-        if not delegates and not re.search(r"self\.write_expansion(_vec)?\(cursor,template,captures\)\.expect\(", c):
+        ps_ = [p_.get("name") for p_ in fn["params"]]
+        T_, C_ = (ps_[1], ps_[2]) if name.endswith("::expansion") and len(ps_) >= 3 else ((ps_[2], ps_[3]) if len(ps_) >= 4 else ("template", "captures"))
+        mw = re.search(r"self\.write_expansion(?:_vec)?\((\w+),%s,%s\)\.expect\(" % (re.escape(T_), re.escape(C_)), c)
+        # the buffer (whatever it is called) must be the one the result is built from
+        buf_ok = bool(mw) and re.search(r"String::from_utf8\(%s\)" % re.escape(mw.group(1)), c) is not None
+        if not delegates and not buf_ok:
             run.violation(fam, label, name, H.where(fn), "%s must expand through write_expansion(_vec)(cursor, template, captures), found %s" % (name, c[:160]))
         # ... on every path: a shortcut that copies the template (or anything else) without scanning it with this
         # expander's own syntax makes the entry points disagree (e.g. a `$`-only test in front of the Python expander)
@@ -297,6 +302,7 @@ def scanner_shape(run, ctx):
                 sm = S.Summary(p, ("%s(" % F,))
                 lets_ = {ev.a: ev.b for ev in p.events if ev.kind == "let" and re.match(r"^\w+$", ev.a or "") and ev.b in (IT,)}
                 sub = [tr for t, tr, _, _ in sm.conds if t in ("(%s == self.sub_char)" % C_, "(self.sub_char == %s)" % C_)]
+                sub += [not tr for t, tr, _, _ in sm.conds if t in ("(%s != self.sub_char)" % C_, "(self.sub_char != %s)" % C_)]
                 if not sub:
                     bad = "an iteration does not compare the character with the substitution character"
                     break
